@@ -21,14 +21,14 @@ ID = "C13"
 TECHNIQUE = "stateless schedule exploration (DFS, prefix replay) of caller starts / cancellations / invocation completions / expiry on the real async cache, reference LRU of in-flight invocations"
 RULE = (
     "2..4 caller tasks over 1..2 keys (cached function and cached method), limit 1..2, expiration none/2, invocation outcome value/"
-    "exception, up to 2 cancellations, one clock advance past expiry; all interleavings of "
+    "exception, up to 2 cancellations, one or two clock advances (entries expiring at different instants); all interleavings of "
     "{start next caller, cancel caller, complete invocation, advance clock}, with and without two "
     "events in one loop iteration; non-trivial = at least two callers shared one invocation or a "
     "caller was cancelled while its invocation was in flight"
 )
 ASSUMPTIONS = [
     "callers are started in index order (callers are symmetric up to their key)",
-    "clock advances (3) never land exactly on the expiration boundary (2)",
+    "clock advances (one of 3, or two of 1.25) never land exactly on the expiration boundary (2)",
 ]
 BOUNDS = {
     "quick": {"callers": [2, 3], "cancels": [0, 1]},
@@ -157,7 +157,10 @@ def execute(program, ch: Chooser) -> Result:  # noqa: C901, PLR0912, PLR0915
                 results[i] = ("raised", exc)
 
         tasks: list[asyncio.Task] = []
-        adv = {"left": 1 if expiration is not None else 0}
+        # two small advances (1.25 each, expiration 2): entries created at different instants
+        # can expire at different instants; never exactly on the boundary
+        adv = {"left": (2 if len(keys) <= 3 and program["cancels"] <= 1 and program["batch"] == 1 else 1) if expiration is not None else 0}
+        step = 1.25 if adv["left"] == 2 else 3.0
 
         def extra():
             acts = []
@@ -174,9 +177,9 @@ def execute(program, ch: Chooser) -> Result:  # noqa: C901, PLR0912, PLR0915
 
                 def advance():
                     adv["left"] -= 1
-                    vtime.advance(3.0)
+                    vtime.advance(step)
 
-                acts.append(Action("advance", "3", advance))
+                acts.append(Action("advance", f"{step:g}", advance))
             return acts
 
         w.extra_actions = extra
